@@ -17,6 +17,9 @@ def run(ctx):
     ctx.level = 'other'
     ctx.assumptions = ['point encode/decode correctness is C09\'s; equality of values after a round trip is not decided']
     for cfg, prog in ctx.programs().items():
+        from .. import lanes
+        nl = lanes.rule_freeslot_index(ctx, cfg, prog) + lanes.rule_bigendian_io(ctx, cfg, prog)
+        ctx.floor('R-LANES byte-order routines[%s]' % cfg, nl, 7)
         n = marshal.rule_foot_and_pair(ctx, cfg, prog)
         ctx.floor('footprint cases[%s]' % cfg, n, 30)
         marshal.rule_params_pairing(ctx, cfg, prog)
